@@ -285,6 +285,11 @@ const FIXED: &[(&str, &[&str], &str, bool, usize)] = &[
     ("(sum $1 (mul (add (var $1) 2) (mul (var $1) (var $1))))", &["sum-shift", "assoc-add", "add-p"], "manual", true, 3),
     ("(sum $1 (mul (add (var $1) 2) (mul (var $1) (var $1))))", &["sum-shift", "assoc-add", "add-p"], "manual", false, 3),
     ("(sum $1 (mul (mul 2 (var $1)) (add (var $1) 1)))", &["sum-scale", "assoc-mul", "mul-1", "comm-mul"], "runner", false, 3),
+    // b[x := y] where y is a VARIABLE that already occurs free in b (substituting a variable for a variable must not be
+    // done by renaming the slot of b's class: the result has the slot twice)
+    ("(let $1 (mul (add (var $1) (var $2)) (var $3)) (var $2))", &["let-subst"], "manual", false, 1),
+    ("(let $1 (mul (add (var $1) (var $2)) (var $3)) (var $2))", &["let-subst", "comm-add"], "manual", true, 1),
+    ("(add (var $2) (let $1 (mul (var $1) (add (var $2) (var $1))) (var $2)))", &["let-subst", "let-mul", "let-add", "let-var"], "runner", false, 2),
     // all searchers run before any applier: the first rule makes the class of (mul x 0) slot-free, the second rule's instance
     // (matched in the state before the call) must still be rewritten in the same pass
     ("(add (mul (var $1) 0) (mul (var $1) 0))", &["mul-0", "add-mul0"], "manual", false, 1),
